@@ -79,7 +79,7 @@ pub fn gen_e(t: &mut Tape, sc: &Scope, ty: Ty, depth: usize) -> E {
     }
     let d = depth - 1;
     match ty {
-        Ty::N => match t.pick(19) {
+        Ty::N => match t.pick(21) {
             0 | 1 => leaf(t, sc, ty),
             2 | 3 | 4 => {
                 let op = [Op::Add, Op::Sub, Op::Mul, Op::Div, Op::Mod, Op::Pow, Op::Add, Op::Mul][t.pick(8)];
@@ -117,12 +117,19 @@ pub fn gen_e(t: &mut Tape, sc: &Scope, ty: Ty, depth: usize) -> E {
             15 => bin(Op::Coalesce, E::Index(b(gen_e(t, sc, Ty::L, d)), b(n(99.0))), gen_e(t, sc, Ty::N, d)),
             16 => bin(Op::Into, gen_e(t, sc, Ty::N, d), gen_e(t, sc, Ty::F, d)),
             17 => E::Fact(b(n([0.0, 1.0, 3.0, 5.0][t.pick(4)]))),
+            18 => {
+                // unit conversion with identifiers whose letter case matters
+                let units: &[(&str, &str)] = &[("mw", "watts"), ("MW", "watts"), ("mW", "watts"), ("km", "m"), ("KM", "M"), ("Mb", "bits"), ("MB", "bytes"), ("mb", "bits"), ("c", "k"), ("celsius", "f"), ("kb", "bits"), ("kB", "bytes")];
+                let (from, to) = units[t.pick(units.len())];
+                call(E::BuiltIn("convert".into()), vec![gen_e(t, sc, Ty::N, d), E::Str(from.into()), E::Str(to.into())])
+            }
+            19 => call(E::BuiltIn("sqrt".into()), vec![E::Neg(b(n(1.0)))]),
             _ => call(
                 E::BuiltIn("reduce".into()),
                 vec![gen_e(t, sc, Ty::L, d), E::Lambda(vec![P::Req("acc".into()), P::Req("it".into())], b(bin(Op::Add, id("acc"), id("it")))), n(0.0)],
             ),
         },
-        Ty::B => match t.pick(9) {
+        Ty::B => match t.pick(11) {
             0 => leaf(t, sc, ty),
             1 | 2 | 3 => {
                 let op = [Op::Lt, Op::Le, Op::Gt, Op::Ge, Op::Eq, Op::Ne, Op::DEq, Op::DLt][t.pick(8)];
@@ -135,6 +142,16 @@ pub fn gen_e(t: &mut Tape, sc: &Scope, ty: Ty, depth: usize) -> E {
                 E::Not(b(gen_e(t, sc, Ty::B, d)), w)
             }
             7 => bin([Op::DEq, Op::DNe][t.pick(2)], gen_e(t, sc, Ty::L, d), gen_e(t, sc, Ty::L, d)),
+            8 => {
+                // the same sub-expression on both sides
+                let ty2 = [Ty::L, Ty::N, Ty::R, Ty::S][t.pick(4)];
+                let x = gen_e(t, sc, ty2, d);
+                bin([Op::DEq, Op::DNe, Op::DEq][t.pick(3)], x.clone(), x)
+            }
+            9 => {
+                let x = gen_e(t, sc, Ty::L, d);
+                call(E::BuiltIn("includes".into()), vec![E::List(vec![x.clone()]), x])
+            }
             _ => call(E::BuiltIn(["every", "some"][t.pick(2)].into()), vec![gen_e(t, sc, Ty::L, d), E::Lambda(vec![P::Req("q".into())], b(bin(Op::Gt, id("q"), gen_e(t, sc, Ty::N, 0))))]),
         },
         Ty::S => match t.pick(8) {
@@ -149,7 +166,7 @@ pub fn gen_e(t: &mut Tape, sc: &Scope, ty: Ty, depth: usize) -> E {
                 call(E::BuiltIn("typeof".into()), vec![gen_e(t, sc, ty2, d)])
             }
         },
-        Ty::L => match t.pick(13) {
+        Ty::L => match t.pick(14) {
             0 | 1 => leaf(t, sc, ty),
             2 => {
                 let k = t.pick(4);
@@ -172,6 +189,10 @@ pub fn gen_e(t: &mut Tape, sc: &Scope, ty: Ty, depth: usize) -> E {
             8 => call(E::BuiltIn(["sort", "reverse", "unique"][t.pick(3)].into()), vec![gen_e(t, sc, Ty::L, d)]),
             9 => call(E::BuiltIn("range".into()), vec![n([0.0, 1.0, 3.0, 4.0][t.pick(4)])]),
             10 => E::List(vec![E::Spread(b(gen_e(t, sc, Ty::L, d))), gen_e(t, sc, Ty::N, d)]),
+            12 => {
+                let x = gen_e(t, sc, Ty::N, d);
+                call(E::BuiltIn("unique".into()), vec![E::List(vec![x.clone(), x, n(1.0)])])
+            }
             11 => {
                 // (x, i) => N over element and index
                 let mut sc2 = sc.clone();
